@@ -423,6 +423,57 @@ class Stepper:
         d = self.tick(cds)
         return o, d
 
+    def step_meta(self, state, inputs, cds):
+        """like step(), for multi-clock DUTs with synchronisers: if a MultiReg's destination
+        domain ticks in the same instant in which its source changes (simultaneous edges), the
+        first stage may capture, per bit, the old or the new source value.  Returns
+        (outputs, [successor states]) - one successor per combination of resolutions."""
+        self.load(state, inputs)
+        o = self.peek()
+        old = [self._val(src) for src, reg, dom in self.multiregs]
+        base = self.tick(cds)
+        cand = []       # (first-stage register, [possible values])
+        for (src, reg, dom), ov in zip(self.multiregs, old):
+            if dom not in cds:
+                continue
+            nv = self._val(src)
+            if nv == ov:
+                continue
+            diff = (nv ^ ov) & ((1 << reg.nbits) - 1)
+            bits = [b for b in range(reg.nbits) if (diff >> b) & 1]
+            vals = []
+            for m in range(1 << len(bits)):
+                v = ov
+                for k, b in enumerate(bits):
+                    if (m >> k) & 1:
+                        v = (v & ~(1 << b)) | (nv & (1 << b))
+                vals.append(v & ((1 << reg.nbits) - 1))
+            cand.append((reg, vals))
+        if not cand:
+            return o, [base]
+        out = []
+        import itertools
+        for combo in itertools.product(*[v for _, v in cand]):
+            self.load(base, inputs)
+            for (reg, _), v in zip(cand, combo):
+                self.poke(reg, v)
+            self.settle()
+            st = self.state()
+            if st not in out:
+                out.append(st)
+        return o, out
+
+    def _val(self, expr):
+        if self.engine == "compiled" and isinstance(expr, Signal) and expr in self.sigidx:
+            return self.v[self.sigidx[expr]]
+        if self.engine == "compiled":
+            # generic expression: evaluate with the reference evaluator on a copy of the values
+            sv = self.ev.signal_values
+            for sgn, i in self.sigidx.items():
+                sv[sgn] = self.v[i]
+            return self.ev.eval(expr)
+        return self.ev.eval(expr)
+
     def names(self):
         if self.reg_names is None:
             from migen.fhdl.namer import build_namespace
